@@ -446,3 +446,29 @@ package bgv
 //@   requires isntt(op0.Value[0]) && isntt(op0.Value[1]) && isntt(op1.Element.Value[0]) && mexp(op0.Value[0]) == 0 && mexp(op0.Value[1]) == 0 && mexp(op1.Element.Value[0]) == 0
 //@   ensures implies(isnil(err), len(opOut.Value) == 2)
 //@   ensures implies(isnil(err), val(opOut.Value[0]) == T * old(val(op0.Value[0])) * old(val(op1.Element.Value[0])) && val(opOut.Value[1]) == T * old(val(op0.Value[1])) * old(val(op1.Element.Value[0])))
+
+// ---- rotations (property C05): the automorphism of the ciphertext for the Galois element of the rotation
+// ---- (NAMED uf_galel(k); that it is 5^k is property C11), respectively for the element of order two
+//@ afunc Evaluator.RotateColumns
+//@   property C05
+//@   case len(op0.Value) == 2 && len(opOut.Value) == 2
+//@   case len(op0.Value) == 2 ; alias opOut = op0
+//@   requires uf_galel(k) != 1 && op0.MetaData.CiphertextMetaData.IsNTT
+//@   requires isntt(op0.Value[0]) && isntt(op0.Value[1]) && dom(op0.Value[0]) == 1 && dom(op0.Value[1]) == 1 && mexp(op0.Value[0]) == 0 && mexp(op0.Value[1]) == 0
+//@   requires len(op0.Value[1].Coeffs) == len(op0.Value[0].Coeffs) && len(opOut.Value[1].Coeffs) == len(opOut.Value[0].Coeffs)
+//@   let ge = uf_galel(k)
+//@   let g = uf_gk(contentid(eval.Evaluator.EvaluationKeySet), ge)
+//@   let I = contentid(eval.Evaluator.automorphismIndex[ge])
+//@   ensures implies(isnil(err), val(opOut.Value[0]) == uf_automidx(old(val(op0.Value[0])) + uf_gp0(old(val(op0.Value[1])), g), I) && val(opOut.Value[1]) == uf_automidx(uf_gp1(old(val(op0.Value[1])), g), I))
+
+//@ afunc Evaluator.RotateRows
+//@   property C05
+//@   case len(op0.Value) == 2 && len(opOut.Value) == 2
+//@   case len(op0.Value) == 2 ; alias opOut = op0
+//@   requires uf_galconj(contentid(eval.parameters.Parameters)) != 1 && op0.MetaData.CiphertextMetaData.IsNTT
+//@   requires isntt(op0.Value[0]) && isntt(op0.Value[1]) && dom(op0.Value[0]) == 1 && dom(op0.Value[1]) == 1 && mexp(op0.Value[0]) == 0 && mexp(op0.Value[1]) == 0
+//@   requires len(op0.Value[1].Coeffs) == len(op0.Value[0].Coeffs) && len(opOut.Value[1].Coeffs) == len(opOut.Value[0].Coeffs)
+//@   let ge = uf_galconj(contentid(eval.parameters.Parameters))
+//@   let g = uf_gk(contentid(eval.Evaluator.EvaluationKeySet), ge)
+//@   let I = contentid(eval.Evaluator.automorphismIndex[ge])
+//@   ensures implies(isnil(err), val(opOut.Value[0]) == uf_automidx(old(val(op0.Value[0])) + uf_gp0(old(val(op0.Value[1])), g), I) && val(opOut.Value[1]) == uf_automidx(uf_gp1(old(val(op0.Value[1])), g), I))
